@@ -26,8 +26,8 @@ PROPERTY_ID = "C09"
 LEVEL = "exploration"
 RULE = (
     "case = (constructed document incl. discriminated unions and cyclic graphs, layout, mutation kind). Each case is generated "
-    "in 4 child interpreters (PYTHONHASHSEED 0 / 1 / seed-derived / 4242424242; fresh vs warm process; two project roots; two "
-    "patched clocks) and the manifests compared; then the force;no-force and force;mutate;no-force histories are run. "
+    "in 4 child interpreters (PYTHONHASHSEED 0 / 1 / seed-derived / 4242424242; fresh vs warm process and forward vs reversed order of the batch, "
+    "i.e. different histories of earlier generations; two project roots; two patched clocks) and the manifests compared; then the force;no-force and force;mutate;no-force histories are run. "
     "Non-trivial = the document has >= 3 schemas with >= 2 reference edges, or a discriminated union. distinct = distinct case JSON."
 )
 ASSUMPTIONS = [
@@ -57,6 +57,9 @@ out = []
 for w in cfg.get("warmup", []):
     r = genrun.generate(w, root=os.path.join(cfg["root"], "_warm%d" % len(out)), force=True)
 for i, case in enumerate(cfg["cases"]):
+    pre = (cfg.get("pre") or [None] * len(cfg["cases"]))[i]
+    if pre is not None:
+        genrun.generate(pre, root=os.path.join(cfg["root"], "_pre%d" % i), force=True)
     root = os.path.join(cfg["root"], "case%d" % i)
     res = genrun.generate(case, root=root, force=True)
     man = {}
@@ -71,14 +74,35 @@ sys.stdout.write("@@MAN@@" + json.dumps(out))
 '''
 
 
-def run_child(cases: list[dict], root: str, hashseed: str, warmup: list[dict], epoch: float | None) -> list[dict]:
+def kind_swapped_twin(case: dict) -> dict:
+    """The same document with every named schema replaced by a schema of ANOTHER kind under the SAME name (object <-> string alias,
+    anything else -> object): generated immediately before the real case in one child, so that anything the generator remembers
+    per schema / type name from an earlier generation in the same process is wrong for the real case."""
+    import copy
+
+    spec = copy.deepcopy(case["spec"])
+    schemas = (spec.get("components") or {}).get("schemas") or {}
+    for name, node in list(schemas.items()):
+        if isinstance(node, dict) and node.get("type") == "object" and "properties" in node:
+            schemas[name] = {"type": "string"}
+        else:
+            schemas[name] = {"type": "object", "properties": {"twin_value": {"type": "integer"}}}
+    # operations keep their shape; parameter/body/response schemas that refer to names stay valid ($ref to any schema kind)
+    for item in (spec.get("paths") or {}).values():
+        for m, op in item.items():
+            if isinstance(op, dict):
+                op.pop("x-ignored", None)
+    return {"spec": spec, "cfg": {**case["cfg"], "prefix": "t"}}
+
+
+def run_child(cases: list[dict], root: str, hashseed: str, warmup: list[dict], epoch: float | None, pre: list | None = None) -> list[dict]:
     env = dict(os.environ)
     env["PYTHONHASHSEED"] = hashseed
     env.pop("PYTHONPATH", None)
     tmp = os.path.join(root, "_tmp")
     os.makedirs(tmp, exist_ok=True)
     p = subprocess.run([sys.executable, "-c", CHILD], input=json.dumps({
-        "repo_src": os.path.join(REPO, "src"), "verif": VERIF, "tmp": tmp, "root": root, "cases": cases, "warmup": warmup, "epoch": epoch}),
+        "repo_src": os.path.join(REPO, "src"), "verif": VERIF, "tmp": tmp, "root": root, "cases": cases, "warmup": warmup, "epoch": epoch, "pre": pre}),
         capture_output=True, text=True, env=env, timeout=900)
     if "@@MAN@@" not in p.stdout:
         raise RuntimeError(f"determinism child failed rc={p.returncode}: {p.stderr[-1500:]}")
@@ -172,9 +196,12 @@ def determinism_violations(cases: list[dict], seed: int) -> list[list[Violation]
     plain = [{"spec": c["spec"], "cfg": {**c["cfg"], "prefix": ""}} for c in cases]
     runs = [
         ("hashseed0_fresh_rootA_epoch1", run_child(plain, os.path.join(base, "A"), "0", [], 1_000_000_000.0)),
-        ("hashseed1_warm_rootB_epoch2", run_child(plain, os.path.join(base, "B", "deeper"), "1", warm, 1_900_000_000.0)),
+        # this child generates the cases in REVERSE order: every case is preceded by a different history of other documents
+        # (same names with other kinds, other layouts) than in the reference child
+        ("hashseed1_warm_rootB_epoch2_reversed_history", list(reversed(run_child(list(reversed(plain)), os.path.join(base, "B", "deeper"), "1", warm, 1_900_000_000.0)))),
         ("hashseedS_fresh_rootA2", run_child(plain, os.path.join(base, "A2"), str((seed * 7919 + 13) % 4294967295), [], None)),
-        ("hashseedBig_warm_rootC", run_child(list(plain), os.path.join(base, "C"), "4242424242", list(reversed(warm)), None)),
+        # every case is immediately preceded by its kind-swapped twin (same schema names, other kinds) in this child
+        ("hashseedBig_warm_rootC_twin_before_each", run_child(list(plain), os.path.join(base, "C"), "4242424242", list(reversed(warm)), None, pre=[kind_swapped_twin(c) for c in plain])),
     ]
     out: list[list[Violation]] = [[] for _ in cases]
     ref_name, ref = runs[0]
